@@ -264,7 +264,7 @@ def atOffset (evalTime : Int) (ts : Option Int) (origOff : Int) (subqOff : Int) 
 /-- Which `rangeEvalTimestampFunctionOverVectorSelector` /repo has: `false` = the code as found (finding
     C28-F1: `vs.Offset = enh.Ts - *vs.Timestamp`, the original offset is dropped), `true` = fixes/C28-F1.patch
     applied (`vs.Offset = vs.OriginalOffset + (enh.Ts - *vs.Timestamp)`). -/
-def repoFixedTsAtOffset : Bool := false
+def repoFixedTsAtOffset : Bool := true
 
 /-- The reference time (`enh.Ts - vs.Offset`) at which `timestamp(m @ a offset o)` looks the sample up. -/
 def tsAtRefG (fixed : Bool) (a off : Int) : Int := if fixed then a - off else a
